@@ -105,7 +105,7 @@ ADDED = {
  "C13": "Also: the split loop drains (no counter-bounded exit); the boundary-search result is compared with the position of the hard maximum before cutting; the sentence splitter advances its index one step per trip.",
  "C14": "Also: csv.Writer.UseCRLF is never set; Export has no shortcut for an empty collection. Each field of the exported record with a namesake in Chunk/ChunkMetadata is a plain copy of it (never the slice position or a default).",
  "C15": "Also: the escape-state dataflow is order-sensitive (escaping backslashes after pipes un-escapes the pipes).",
- "C16": "Also: streaming token walks that record elements by name consume the subtree or test the nesting depth; the resolver's cached ResolvedStyle is never written by the readers; role-name agreement (rows/cols of spans).",
+ "C16": "Also: streaming token walks that record elements by name consume the subtree or test the nesting depth; the resolver's cached ResolvedStyle is never written by the readers; role-name agreement (rows/cols of spans). The DOCX body/table/row/cell decoders and the ODT table/cell/list/list-item decoders have a field or dispatch label for every text-carrying block-level child of the content model, including the grouping wrappers (content controls, custom XML, header-row and row groups).",
  "C17": "Also: XML is decoded into storage allocated in the same function in every reader; row/column indices into a sheet cropped to its content bounds derive from minRow/minCol; role-name agreement (start/end row/col of merges).",
  "C18": "Also: the EPUB base directory is the directory of the package file (path.Dir / last '/'), never a cut at the first '/'. A parallel list filtered while ranging over the declared list is never indexed with the declared list's counter; the r:id -> target tables are filled regardless of how the target is spelled.",
  "C19": "Also: the filtered traversal writes nothing through the Reader; the exclusion decision is consulted only by the filtered traversal; a checker's mode is set only by its constructor and no checker outlives its pass. Element kinds that getDirectTextContent leaves out of a list item's text are descended into by the li case (evaluated over the tag names); parseTable/row parsers have a branch for every row group (thead, tbody, tfoot, tr) and cell kind (td, th) of the HTML table model; the EPUB reader hands each of the four exclusion modes to the HTML reader unchanged (evaluated over the four values).",
